@@ -190,10 +190,13 @@ def check (op : OpObs) (pre post : Views) (seen : Array Bool) : List Fail :=
         mk ["C15", "C03"] "append-mismatch-panics" s!"ch={d.ch}/{s.ch} outcome={outcome}" (outcome == "panic diffChannels") ++
         frameFails ["C15"] "append-mismatch-unchanged" pre post seen []
       else
-        let props := if d.ch == 0 || (d.cap == 0 && s.len == 0) then ["C20"] else ["C03", "C12"]
         let n := s.len
-        if dst != src && srcOverlapsSpare d s && d.len + n ≤ d.cap then []  -- excluded by C03
-        else
+        -- a source window overlapping the destination's spare capacity cannot stay unchanged (C03 presupposes
+        -- it does); a plain Go `append(dst, src...)` is still defined there (it reads the source before
+        -- writing), so C12 keeps the case, with the pre-state source samples as the expected values
+        let overlap := dst != src && srcOverlapsSpare d s && d.len + n ≤ d.cap
+        let props := if d.ch == 0 || (d.cap == 0 && s.len == 0) then ["C20"]
+          else if overlap then ["C12"] else ["C03", "C12"]
         mk props "append-no-panic" s!"dst=len{d.len}/cap{d.cap} src=len{s.len} self={dst == src} outcome={outcome}" (outcome == "ok") ++
         (if outcome != "ok" then [] else
         if d.len + n ≤ d.cap then
